@@ -12,10 +12,19 @@
    * a loop (variable, lower, upper) is a `nat` naming the triple (as in Simplify.For);
    * Python's stack (a list whose top is its END) is a Coq list whose top is its HEAD, so
      `stack.extend(l)` is `rev l ++ stack`;
-   * `visiting`/`visited` (Python sets, only tested for membership) are lists. *)
+   * `visiting`/`visited` (Python sets, only tested for membership) are lists.
+
+   Shape switches: `skip_false` is a parameter of `main_block`/`lower`.  The second switch,
+   `guard_outside` (repair of C01's finding: guard around the loop nest instead of inside it), is an
+   explicit parameter of `wrap_g`; `wrap` - and through it `main_block`, `lower` - reads it from
+   coq/gen/GenC05.v (`lower_guard_outside`), so that the signatures other developments use
+   (proofs/Bridge.v, model/Determ.v, props/C01.v, props/C15.v, harness headers) stay as they were.
+   Every lemma of proofs/DagAstProofs.v about `wrap` is proved for `wrap_g go` with `go` universally
+   quantified and then instantiated, never by looking at the value of the generated constant. *)
 From Coq Require Import List Arith Bool Relations.
 Import ListNotations.
-From Dagrt Require Import Simplify.
+From Dagrt Require Import GenC05 Simplify.
+Local Open Scope list_scope.
 
 Record stmt := mkStmt {
   sid : nat;            (* statement.id *)
@@ -102,7 +111,20 @@ Definition guard_node (st : stmt) : ast :=
   | c => IfTE c (Leaf (sid st)) Null
   end.
 (* loop_to_ast_node: loops outermost (loops[0] first), then the guard *)
-Definition wrap (st : stmt) : ast := fold_right For (guard_node st) (sloops st).
+(* Two recognised shapes (harness/tr/c05.py):
+   guard_outside = false: loop_to_ast_node = loops around conditional_to_ast(statement)
+                          ForLoop(.., ForLoop(.., IfThenElse(c, stmt, Null)))
+   guard_outside = true : loop_to_ast_node = IfThenElse(c, loops_to_ast(stmt[c:=True]), Null) when the
+                          condition is not True, loops_to_ast(stmt) otherwise
+                          (fixes/C01_guard_outside_loops.patch) *)
+Definition wrap_g (guard_outside : bool) (st : stmt) : ast :=
+  if guard_outside
+  then match sguard st with
+       | CTrue => fold_right For (Leaf (sid st)) (sloops st)
+       | c => IfTE c (fold_right For (Leaf (sid st)) (sloops st)) Null
+       end
+  else fold_right For (guard_node st) (sloops st).
+Definition wrap (st : stmt) : ast := wrap_g lower_guard_outside st.
 
 Definition is_cfalse (c : cond) : bool := match c with CFalse => true | _ => false end.
 
